@@ -6,8 +6,7 @@ Account references: `k<i>` = person i (deterministic key, address i+1), `n<j>` =
 line (address 1000+j). Ops: `new:<label>:<scheme>:<pw>`, `imp:<k>:<label>:<alg>:<scheme>:<pw>:<prm>`, `del:<ref>:<pw>`,
 `def:<ref>`, `lab:<ref>:<label>`, `pw:<ref>:<old>:<new>`, `sch:<ref>:<scheme>`, `rl` (reopen). Labels: `-` = empty.
 Output: per-op error codes, then ` # ` and the observable state (all getters over the vocabulary of the line, which
-passwords open which account, and the result of a final `SetLabel(first labelled account, "")` probe). The outputs of all 16 combinations of the four repairs
-are printed (deduplicated, `a ## b ## …`): a tree with any subset of the fixes applied corresponds. -/
+passwords open which account, and the result of a final `SetLabel(first labelled account, "")` probe). -/
 namespace OntVerif.Driver.C38
 open OntVerif.Util OntVerif.Model.Wallet
 
@@ -32,28 +31,28 @@ def errStr : Err → String
   | .ok => "ok" | .emptyPw => "emptypw" | .sigScheme => "sigscheme" | .dupLabel => "duplabel" | .dupAddr => "dupaddr"
   | .noAccount => "noaccount" | .isDefault => "isdefault" | .decrypt => "decrypt"
 
-def stepOp (v : Variant) (st : St) (op : String) : Option (St × String) :=
+def stepOp (st : St) (op : String) : Option (St × String) :=
   let fin (r : Err × W S) (st : St) : Option (St × String) := some ({ st with w := r.2, salt := st.salt + 1 }, errStr r.1)
   match op.splitOn ":" with
   | ["new", l, sch, pw] =>
     match sch.toNat?, pw.toNat? with
     | some sch, some pw =>
       let j := st.news + 1
-      fin (st.w.newAccount v (lab l) sch pw (1000 + j) (1000 + j) st.salt) { st with news := j }
+      fin (st.w.newAccount (lab l) sch pw (1000 + j) (1000 + j) st.salt) { st with news := j }
     | _, _ => none
   | ["imp", k, l, alg, sch, pw, prm] =>
     match k.toNat?, alg.toNat?, sch.toNat?, pw.toNat?, prm.toNat? with
-    | some k, some alg, some sch, some pw, some prm => fin (st.w.importAccount v (lab l) alg sch pw (k + 1) (k + 1) st.salt prm) st
+    | some k, some alg, some sch, some pw, some prm => fin (st.w.importAccount (lab l) alg sch pw (k + 1) (k + 1) st.salt prm) st
     | _, _, _, _, _ => none
   | ["del", r, pw] =>
     match parseRef r, pw.toNat? with
     | some a, some pw => fin (st.w.deleteAccount a pw) st
     | _, _ => none
   | ["def", r] => (parseRef r).bind fun a => fin (st.w.setDefault a) st
-  | ["lab", r, l] => (parseRef r).bind fun a => fin (st.w.setLabel v a (lab l)) st
+  | ["lab", r, l] => (parseRef r).bind fun a => fin (st.w.setLabel a (lab l)) st
   | ["pw", r, o, n] =>
     match parseRef r, o.toNat?, n.toNat? with
-    | some a, some o, some n => fin (st.w.changePassword v a o n st.salt) st
+    | some a, some o, some n => fin (st.w.changePassword a o n st.salt) st
     | _, _, _ => none
   | ["sch", r, sch] =>
     match parseRef r, sch.toNat? with
@@ -95,7 +94,7 @@ def optMeta : Option (Meta S) → String
   | some m => metaStr m
   | none => "-"
 
-def dump (v : Variant) (w : W S) (ops : List String) : String :=
+def dump (w : W S) (ops : List String) : String :=
   let labels := dedupS ((ops.flatMap opLabels).filter (· != "-") |>.flatMap fun l => [l, l ++ "_1", l ++ "_1_1"]) []
   let pws := dedupN ([1, 2, 3] ++ (ops.flatMap opPws).filter (· != 0)) []
   let addrs := (range1 6) ++ (range1 (countNew ops)).map (· + 1000)
@@ -111,16 +110,16 @@ def dump (v : Variant) (w : W S) (ops : List String) : String :=
     s!"{i}:" ++ (if good.isEmpty then "-" else String.intercalate "+" (good.map toString)))
   -- probe: SetLabel(first labelled account, "")
   let probe := match (w.records.filter fun a => a.label != "").head? with
-    | some a => errStr (w.setLabel v a.addr "").1
+    | some a => errStr (w.setLabel a.addr "").1
     | none => "-"
   s!"num={w.num};idx={idx};def={optMeta w.metaDefault};addr={byA};lab={byL};open={opens};probe={probe}"
 
-def runOps (v : Variant) (st : St) (all : List String) : List String → List String → String
-  | [], acc => String.intercalate "|" acc.reverse ++ " # " ++ dump v st.w all
+def runOps (st : St) (all : List String) : List String → List String → String
+  | [], acc => String.intercalate "|" acc.reverse ++ " # " ++ dump st.w all
   | op :: r, acc =>
-    match stepOp v st op with
+    match stepOp st op with
     | none => "bad-op"
-    | some (st', o) => runOps v st' all r (o :: acc)
+    | some (st', o) => runOps st' all r (o :: acc)
 
 def initW (prm : Nat) : W S := if prm = 0 then W.fresh S else W.load (some (prm, []))
 
@@ -130,11 +129,7 @@ def handle (line : String) : String :=
     match prm.toNat? with
     | some prm =>
       let ops := ops.splitOn ";"
-      -- every combination of the four repairs is an acceptable tree (as shipped first, fully repaired last)
-      let bs := [false, true]
-      let vs : List Variant := bs.flatMap fun a => bs.flatMap fun b => bs.flatMap fun c => bs.map fun d => ⟨a, b, c, d⟩
-      let outs := dedupS (vs.map fun v => runOps v ⟨initW prm, 0, 1⟩ ops ops []) []
-      String.intercalate " ## " outs
+      runOps ⟨initW prm, 0, 1⟩ ops ops []
     | none => "bad-op"
   | _ => "bad-op"
 
